@@ -3,6 +3,7 @@ pub mod c02;
 pub mod c03;
 pub mod c04;
 pub mod c05;
+pub mod c06;
 pub mod c07;
 pub mod c09;
 pub mod c10;
@@ -32,6 +33,7 @@ pub fn hist_prop(id: &str) -> Option<hist::HistProp> {
 pub fn run(id: &str, tier: Tier, seed: u64) -> Option<i32> {
     match id {
         "C05" => Some(c05::run(tier, seed)),
+        "C06" => Some(c06::run(tier, seed)),
         "C07" => Some(c07::run(tier, seed)),
         "C09" => Some(c09::run(tier, seed)),
         _ => hist_prop(id).map(|hp| hist::run(&hp, tier, seed)),
@@ -41,6 +43,7 @@ pub fn run(id: &str, tier: Tier, seed: u64) -> Option<i32> {
 /// replay one saved case; Ok(None) = held, Ok(Some(msg)) = still violated
 pub fn replay(id: &str, v: &serde_json::Value) -> Result<Option<String>, String> {
     match id {
+        "C06" => c06::replay(v),
         "C07" => c07::replay(v),
         "C09" => c09::replay(v),
         _ => match hist_prop(id) {
